@@ -299,9 +299,9 @@ func (l *link) padPacket(n int) []byte { return l.sess.Enc.Packet(ss.FlagPayload
 type snap struct {
 	dWritten, dDelivered, dMismatch int64
 	dErr                            error
-	uWritten, uDecoded, uMismatch            int64
-	uErr, uWriteErr                          error
-	uBadPkt                                  string
+	uWritten, uDecoded, uMismatch   int64
+	uErr, uWriteErr                 error
+	uBadPkt                         string
 }
 
 func (l *link) snapshot() snap {
@@ -332,28 +332,32 @@ func (l *link) judgeStreams(what string, wit any) bool {
 		l.c.Violation(sig+"/"+what, fmt.Sprintf(format, a...), wit)
 		ok = false
 	}
+	// the root cause only: once a Read has failed the monitor stops reading and
+	// fails the wire, so later write errors / short counts are consequences
 	if s.dMismatch >= 0 {
 		v("stream-mismatch/down", "byte %d delivered to the client application is not the byte the server sent there", s.dMismatch)
 	}
 	if s.uMismatch >= 0 {
 		v("stream-mismatch/up", "payload byte %d decoded by the reference server is not the byte the client application wrote there", s.uMismatch)
 	}
-	if s.dErr != nil {
-		v("read-error", "client Read failed on a healthy connection: %v", s.dErr)
-	}
-	if s.uWriteErr != nil {
-		v("write-error", "client Write failed on a healthy connection: %v", s.uWriteErr)
-	}
-	if s.uErr != nil {
+	switch {
+	case s.dErr != nil:
+		v("read-error", "client Read failed on a healthy connection after %d of %d bytes: %v", s.dDelivered, s.dWritten, s.dErr)
+		return ok
+	case s.uErr != nil:
 		v("client-packets-rejected", "the reference server cannot decode what the client emitted: %v", s.uErr)
+		return ok
+	case s.uWriteErr != nil:
+		v("write-error", "client Write failed on a healthy connection: %v", s.uWriteErr)
+		return ok
 	}
 	if s.uBadPkt != "" {
 		v("client-packet-malformed", "%s", s.uBadPkt)
 	}
-	if s.dDelivered != s.dWritten && s.dMismatch < 0 && s.dErr == nil {
+	if s.dDelivered != s.dWritten && s.dMismatch < 0 {
 		v("stream-short/down", "quiescent after a trailing padding-only packet with %d of %d bytes delivered to the client application", s.dDelivered, s.dWritten)
 	}
-	if s.uDecoded != s.uWritten && s.uMismatch < 0 && s.uErr == nil && s.uWriteErr == nil {
+	if s.uDecoded != s.uWritten && s.uMismatch < 0 {
 		v("stream-short/up", "quiescent with %d of %d client bytes decoded by the server (%d bytes of an incomplete packet held)", s.uDecoded, s.uWritten, l.sess.Dec.Buffered())
 	}
 	return ok
@@ -1012,8 +1016,10 @@ func errKind(err error) string {
 }
 
 type respTamper struct {
-	field string // Y padding M_S MAC_S truncate
-	bit   int    // bit inside the field; byte offset for truncate
+	field   string // Y padding M_S MAC_S truncate
+	bit     int    // bit inside the field; byte offset for truncate
+	fromEnd int    // truncate: > 0 = cut this many bytes before the end of the response
+	pad     int    // truncate with fromEnd: the response padding
 }
 
 func runTamperedResponse(c *mon.Case, r *mon.Run, sc *srvCtx, cf base.ClientFactory, tm respTamper, pad int, seed uint64) {
@@ -1032,10 +1038,17 @@ func runTamperedResponse(c *mon.Case, r *mon.Run, sc *srvCtx, cf base.ClientFact
 	resp, sess := sc.srv.Respond(hello, pad, nil)
 	lo := map[string]int{"Y": 0, "padding": ss.PubKeyLen, "M_S": ss.PubKeyLen + pad, "MAC_S": ss.PubKeyLen + pad + ss.MacLen}
 	eof := false
+	cls := tm.field // goes into the signature; truncations are classified by the field that is cut
 	switch tm.field {
 	case "truncate":
-		resp = resp[:tm.bit%len(resp)]
+		at := tm.bit % len(resp)
+		if tm.fromEnd > 0 {
+			at = len(resp) - tm.fromEnd
+		}
+		resp = resp[:at]
 		eof = true
+		cls = "truncate-" + region(at, pad)
+		wit["truncated_to"] = at
 	default:
 		resp[lo[tm.field]+tm.bit/8] ^= 1 << (tm.bit % 8)
 	}
@@ -1055,11 +1068,11 @@ func runTamperedResponse(c *mon.Case, r *mon.Run, sc *srvCtx, cf base.ClientFact
 		buf := make([]byte, 256)
 		got, _ = res.conn.Read(buf)
 		tmr.Stop()
-		c.Violation("handshake-completed/tampered-response-"+tm.field, fmt.Sprintf("Dial returned success although bit %d of %s of the response (padding %d) was flipped; a following Read delivered %d bytes", tm.bit, tm.field, pad, got), wit)
+		c.Violation("handshake-completed/tampered-response-"+cls, fmt.Sprintf("Dial returned success although the response (padding %d) was damaged (%s, bit/offset %d); a following Read delivered %d bytes", pad, cls, tm.bit, got), wit)
 		res.conn.Close()
 	} else if res.panic != "" {
 		wit["stack"] = trim(res.stack)
-		c.Violation("dial-panic/tampered-response-"+tm.field, res.panic, wit)
+		c.Violation("dial-panic/tampered-response-"+cls, fmt.Sprintf("Dial panicked: %s; response with padding %d damaged: %s (bit/offset %d)", res.panic, pad, cls, tm.bit), wit)
 	} else {
 		r.Count("control_tampered_response_rejected", 1)
 		r.Distinct("tampered_response_errors", tm.field+":"+errKind(res.err))
@@ -1307,8 +1320,8 @@ func TestCheck(t *testing.T) {
 	r.Note("rule", "Real ScrambleSuit client (transports API: ClientFactory(stateDir) -> ParseArgs(password) -> Dial) against ref/ss, an independent conforming server, over memwire in a synctest bubble. "+
 		"(A) UniformDH response padding x segmentation: for every padding length in the tier's set, the response is delivered cut at each offset of its last 48 bytes (M_S | MAC_S plus 16 bytes before), for a subset of paddings at EVERY offset, plus PRNG two-cut splits and cuts inside NewTicket/PRNG-seed packets coalesced behind the response; a segment is written only after the client consumed the previous one and is blocked again (synctest.Wait), or (alternating) the whole stream is written once and reads are capped at the cut offsets; Dial must return success, then a little data both ways must be exact. "+
 		"(B) streams: grid of 11 chunk policies x 3 scenarios (client first / server payload, ticket and seed coalesced with the response / long idle gaps), one UniformDH and one ticket connection each, concurrent reader and writer goroutines on the client, PRF streams both ways, server packets of varied payload/padding split with padding-only, seed and ticket packets interleaved. Stream equality is judged at quiescence AFTER the reference server has sent one further padding-only packet: unlike C01 the statement does not promise delivery without further traffic, and this client decodes bytes that arrived together with the handshake response only on its next network read. "+
-		"(C) single-bit modification of one packet (9 classes: payload of 5 sizes, padding-only, full MTU, NewTicket, PRNG seed; regions MAC / 3 header fields / body) followed by > 2*1448 bytes of valid packets: Read must have reported an error at quiescence and everything ever delivered is a prefix of what was sent, from packets before the damaged one. "+
-		"(D) client configured with a different k_B (random / one bit; silent conforming server, and a peer answering under its own secret): Dial must fail (60 s virtual deadline); single-bit flips of Y, padding, M_S, MAC_S and truncation+EOF of the response: Dial must fail. "+
+		"(C) single-bit modification of one packet (9 classes: payload of 5 sizes, padding-only, full MTU, NewTicket, PRNG seed; regions MAC / 3 header fields / body) followed by > 2*1448 bytes of valid packets: Read must have reported an error at quiescence and everything delivered up to and including the failing Read is a prefix of what was sent, carried by packets before the damaged one (the monitor stops reading at the first error; what a caller that ignores the error would get is not judged). "+
+		"(D) client configured with a different k_B (random / one bit; silent conforming server, and a peer answering under its own secret): Dial must fail (60 s virtual deadline); single-bit flips of Y, padding, M_S, MAC_S and truncation+EOF of the response (PRNG offsets and each of the last 33 offsets): Dial must fail (an error, not a panic). "+
 		"(E) histories over {C connect, I server issues ticket on the open connection, R restart: new ClientFactory on the same state dir, 6/8 advance the virtual clock 6/8 days, X make the ticket file entry undecodable} of length <= 5: every connect must complete and move data, the server's log must never show a ticket twice, an expired ticket, or an unauthenticated hello (so an absent/used/expired/corrupt ticket means UniformDH). A valid ticket MAY be used; that it is used is only a positive control. "+
 		"Non-trivial = a connection that ran to its verdict; distinct = (part, parameters).")
 	base := o4.StateDir("c15")
@@ -1503,22 +1516,26 @@ func TestCheck(t *testing.T) {
 	{
 		rng := mon.NewRand(r.Sub("resp-tamper"))
 		for b := 0; b < 128; b++ {
-			rts = append(rts, respTamper{"M_S", b}, respTamper{"MAC_S", b})
+			rts = append(rts, respTamper{field: "M_S", bit: b}, respTamper{field: "MAC_S", bit: b})
 		}
 		if r.Thorough() {
 			for b := 0; b < ss.PubKeyLen*8; b++ {
-				rts = append(rts, respTamper{"Y", b})
+				rts = append(rts, respTamper{field: "Y", bit: b})
 			}
 		} else {
 			for k := 0; k < 48; k++ {
-				rts = append(rts, respTamper{"Y", rng.IntN(ss.PubKeyLen * 8)})
+				rts = append(rts, respTamper{field: "Y", bit: rng.IntN(ss.PubKeyLen * 8)})
 			}
 		}
 		for k := 0; k < r.Pick(48, 1024); k++ {
-			rts = append(rts, respTamper{"padding", rng.IntN(1 << 20)}) // reduced modulo the padding length below
+			rts = append(rts, respTamper{field: "padding", bit: rng.IntN(1 << 20)}) // reduced modulo the padding length below
 		}
 		for k := 0; k < r.Pick(16, 256); k++ {
-			rts = append(rts, respTamper{"truncate", rng.IntN(1 << 20)})
+			rts = append(rts, respTamper{field: "truncate", bit: rng.IntN(1 << 20)})
+		}
+		// truncation + EOF at each of the last 33 offsets, small and PRNG paddings
+		for k := 1; k <= 33; k++ {
+			rts = append(rts, respTamper{field: "truncate", fromEnd: k, pad: k%17 + k/17}, respTamper{field: "truncate", fromEnd: k, pad: 1 + rng.IntN(ss.MaxUDHPad)})
 		}
 	}
 	for blk := 0; blk*64 < len(rts); blk++ {
@@ -1536,6 +1553,9 @@ func TestCheck(t *testing.T) {
 				pad := []int{0, 1, 16, 200, 1308}[rng.IntN(5)]
 				if rng.IntN(2) == 0 {
 					pad = rng.IntN(ss.MaxUDHPad + 1)
+				}
+				if tm.fromEnd > 0 {
+					pad = tm.pad
 				}
 				if tm.field == "padding" {
 					if pad == 0 {
